@@ -6,8 +6,8 @@
    multiplication algorithms, modular inverse, the 10x26 / 8x32 / struct-int128 / asm configurations,
    SHA-256/HMAC/RFC 6979) is tied by the differential correspondence of ./check C05 on a build matrix. *)
 From Coq Require Import ZArith List Bool.
-Require Import Kernel.CSem Kernel.Field5x52 Kernel.Field5x52Sqr Kernel.CtPrimitives Kernel.FieldNormalize Kernel.Scalar4x64.
-Require Import Gen.fe_mul_inner Gen.fe_sqr_inner Gen.scalar_cmov Gen.fe_impl_cmov Gen.fe_impl_normalize Gen.scalar_check_overflow Gen.scalar_is_high.
+Require Import Kernel.CSem Kernel.Field5x52 Kernel.Field5x52Sqr Kernel.CtPrimitives Kernel.FieldNormalize Kernel.Scalar4x64 Kernel.ScalarMul512 Kernel.ScalarSqr512.
+Require Import Gen.fe_mul_inner Gen.fe_sqr_inner Gen.scalar_cmov Gen.fe_impl_cmov Gen.fe_impl_normalize Gen.scalar_check_overflow Gen.scalar_is_high Gen.scalar_mul_512 Gen.scalar_sqr_512.
 Import ListNotations.
 Local Open Scope Z_scope.
 
@@ -49,6 +49,24 @@ Theorem scalar_is_high_correct : forall d0 d1 d2 d3,
   scalar_is_high d0 d1 d2 d3 = if N256 / 2 <? val4 d0 d1 d2 d3 then 1 else 0.
 Proof. exact Kernel.Scalar4x64.scalar_is_high_correct. Qed.
 Print Assumptions scalar_is_high_correct.
+(* Schoolbook 256x256 -> 512 bit multiplication and squaring of scalars (the muladd / muladd2 / sumadd / extract
+   macro chains with their 64-bit carry tests): for ALL limb values the eight output limbs are in range and
+   their value is the exact integer product.  No carry is ever dropped. *)
+Theorem scalar_mul_512_correct : forall a0 a1 a2 a3 b0 b1 b2 b3,
+  0 <= a0 < 2^64 -> 0 <= a1 < 2^64 -> 0 <= a2 < 2^64 -> 0 <= a3 < 2^64 ->
+  0 <= b0 < 2^64 -> 0 <= b1 < 2^64 -> 0 <= b2 < 2^64 -> 0 <= b3 < 2^64 ->
+  scalar_mul_512_k a0 a1 a2 a3 b0 b1 b2 b3 (fun l0 l1 l2 l3 l4 l5 l6 l7 =>
+    (0 <= l0 < 2^64 /\ 0 <= l1 < 2^64 /\ 0 <= l2 < 2^64 /\ 0 <= l3 < 2^64 /\ 0 <= l4 < 2^64 /\ 0 <= l5 < 2^64 /\ 0 <= l6 < 2^64 /\ 0 <= l7 < 2^64) /\
+    val8 l0 l1 l2 l3 l4 l5 l6 l7 = val4 a0 a1 a2 a3 * val4 b0 b1 b2 b3).
+Proof. exact Kernel.ScalarMul512.scalar_mul_512_correct. Qed.
+Print Assumptions scalar_mul_512_correct.
+Theorem scalar_sqr_512_correct : forall a0 a1 a2 a3,
+  0 <= a0 < 2^64 -> 0 <= a1 < 2^64 -> 0 <= a2 < 2^64 -> 0 <= a3 < 2^64 ->
+  scalar_sqr_512_k a0 a1 a2 a3 (fun l0 l1 l2 l3 l4 l5 l6 l7 =>
+    (0 <= l0 < 2^64 /\ 0 <= l1 < 2^64 /\ 0 <= l2 < 2^64 /\ 0 <= l3 < 2^64 /\ 0 <= l4 < 2^64 /\ 0 <= l5 < 2^64 /\ 0 <= l6 < 2^64 /\ 0 <= l7 < 2^64) /\
+    val8 l0 l1 l2 l3 l4 l5 l6 l7 = val4 a0 a1 a2 a3 * val4 a0 a1 a2 a3).
+Proof. exact Kernel.ScalarSqr512.scalar_sqr_512_correct. Qed.
+Print Assumptions scalar_sqr_512_correct.
 Theorem N256_is_group_order : N256 = 0xFFFFFFFFFFFFFFFFFFFFFFFFFFFFFFFEBAAEDCE6AF48A03BBFD25E8CD0364141.
 Proof. reflexivity. Qed.
 
